@@ -113,7 +113,12 @@ def gen_hist(rng, maxops):
             ver[d] += 1
             parent = DOCS[d][2] if rng.chance(5, 6) else rng.choice(PARENT_CHOICES[d])
             variant = rng.choice(["plain", "plain", "plain", "extra", "broken", "twoprocs"])
-            h.ops.append({"k": "change", "d": d, "text": [ver[d], parent, variant]})
+            op = {"k": "change", "d": d, "text": [ver[d], parent, variant]}
+            if rng.chance(1, 4):
+                # a client batching edits: one notification, several full-text events — the LAST is the document now;
+                # the earlier ones are texts that never become current (other versions, other variants)
+                op["pre"] = [[ver[d] + 50 + j, DOCS[d][2], rng.choice(["plain", "extra", "broken", "twoprocs"])] for j in range(1 + rng.below(2))]
+            h.ops.append(op)
         elif r < 82:
             ver[d] += 1
             parent = DOCS[d][2] if rng.chance(5, 6) else rng.choice(PARENT_CHOICES[d])
@@ -269,7 +274,9 @@ def run_hist(h, wsdir, deadline):
                 obs.append({})
             elif k == "change":
                 changed[d] = op["text"]
-                srv.notify("textDocument/didChange", lsp.did_change(u, text_of(d, *op["text"]), i + 2))
+                params = lsp.did_change(u, text_of(d, *op["text"]), i + 2)
+                params["contentChanges"] = [{"text": text_of(d, *t)} for t in op.get("pre", [])] + params["contentChanges"]
+                srv.notify("textDocument/didChange", params)
                 obs.append({})
             elif k == "save":
                 disk[d] = op["text"]
